@@ -3,3 +3,4 @@ import SpecsModel.Props.C17
 #print axioms SpecsModel.C17.created_below_peak
 #print axioms SpecsModel.C17.peak_is_running_max
 #print axioms SpecsModel.C17.no_index_leaked
+#print axioms SpecsModel.C17.world_no_index_leaked
